@@ -231,16 +231,21 @@ var funcmap = FuncMap{
 					}
 					continue renderloop
 				}
+				var text string
+				if val.mustEscape {
+					text = template.HTMLEscapeString(val.val)
+				} else if val.val[0] == '"' {
+					text = val.val[1 : len(val.val)-1]
+				}
+				if text == "" && attr == "class" {
+					// an empty class name adds nothing, not even a separator
+					continue
+				}
 				if len(tmp) > 0 {
 					tmp += ` `
 				}
-				if val.mustEscape {
-					tmp += template.HTMLEscapeString(val.val)
-				} else if val.val[0] == '"' {
-					tmp += val.val[1 : len(val.val)-1]
-				}
+				tmp += text
 			}
-			tmp = strings.TrimSpace(tmp)
 			if tmp == "" && attr == "class" {
 				continue renderloop
 			}
